@@ -183,6 +183,20 @@ pub fn run(tier: Tier) -> i32 {
                                 ctx.violation(&case2, &format!("raw LzmaDecoder constructed with unknown size: marker member, reset(Some(Some({}))), sized member followed by 2 other bytes (stops after {} bytes), reset(Some(None)), marker member", nb, eb_sized.payload.len()), &o2, None);
                             }
                         }
+                        // plain reset(None): the size given at construction stays in effect for the next member
+                        {
+                            let mut in_a = ea.payload.clone();
+                            in_a.extend_from_slice(&[0x55, 0xAA, 0x00]);
+                            let ops3 = vec![RawOp::Dec(Hex(in_a.clone())), RawOp::Reset, RawOp::Dec(Hex(in_a.clone())), RawOp::Reset, RawOp::Dec(Hex(in_a))];
+                            let case3 = Case::RawLzma { lc, lp, pb, dict: 4096, size: Some(na), memlimit: None, ops: ops3 };
+                            let o3 = run_case(&case3);
+                            ctx.eval(1);
+                            ctx.nontriv(1);
+                            let ok3 = o3.ops.len() == 5 && [0usize, 2, 4].iter().all(|&k| o3.ops[k].v.is_ok() && o3.ops[k].n == Some(ea.payload.len() as u64) && o3.ops[k].sink_len == ea.expect.len());
+                            if !ok3 {
+                                ctx.violation(&case3, &format!("raw LzmaDecoder constructed with size {}: member [{}] + 3 other bytes, reset(None), the same again, twice: every decode is Ok, produces {} bytes and stops after {} bytes", na, prog_str(a), na, ea.payload.len()), &o3, None);
+                            }
+                        }
                         let case = Case::RawLzma { lc, lp, pb, dict: 4096, size: Some(na), memlimit: None, ops };
                         let o = run_case(&case);
                         n_cases += 1;
